@@ -98,30 +98,55 @@ func (w *World) ruleDateStructPath(r *Report, rule string) {
 		r.undecided(rule, "(*Encoder).writeObject", "-", "anchor not found")
 		return
 	}
-	var ta *ssa.TypeAssert
-	for _, b := range wo.Blocks {
-		for _, in := range b.Instrs {
-			if x, ok := in.(*ssa.TypeAssert); ok && typeStr(x.AssertedType) == "time.Time" {
-				ta = x
-			}
-		}
+	// read from the writer's paths (helpers stepped into): on every path, whatever
+	// belongs to the object production — a header octet, an entry appended to the
+	// definition table — comes after a dynamic-type test for time.Time.  Where the
+	// test sits (the writer, a "date or ref" helper) does not matter.
+	wi := w.writerPaths(wo)
+	if wi.truncated {
+		r.undecided(rule, "(*Encoder).writeObject", w.pos(wo.Pos()), "path exploration exceeded its budget")
+		return
 	}
-	if ta == nil {
-		r.add(rule, "(*Encoder).writeObject · time.Time test", w.pos(wo.Pos()), false, "no type test for time.Time in the struct writer: a timestamp field is written as an object")
-	} else {
-		ok := true
-		fact := "the time.Time test dominates every class-definition / instance emission"
-		for _, cs := range w.callSitesIn(wo) {
-			switch cs.callee {
-			case "(*Encoder).writeClsDef", "(*Encoder).writeBT", "(*Encoder).existClassDef":
-				if !ta.Block().Dominates(cs.call.Block()) {
-					ok = false
-					fact = fmt.Sprintf("%s at %s is not dominated by the time.Time test", cs.callee, w.instrPos(cs.call))
+	tests, emitting, bad := 0, 0, ""
+	testPos, badPos := "", ""
+	for _, p := range wi.paths {
+		tested := false
+		counted := false
+		for _, e := range p.Trace {
+			switch {
+			case e.Kind == "typetest" && e.Extra == "time.Time":
+				if !tested {
+					tests++
+					if testPos == "" {
+						testPos = e.Pos
+					}
+				}
+				tested = true
+			case e.Kind == "octets", e.Kind == "fieldstore" && len(e.Args) == 1 && e.Args[0] != nil && e.Args[0].K == TPure && e.Args[0].Name == "append":
+				if !counted {
+					emitting++
+					counted = true
+				}
+				if !tested && bad == "" {
+					what := "a header octet"
+					if e.Kind == "fieldstore" {
+						what = "an entry appended to the definition table"
+					}
+					bad, badPos = fmt.Sprintf("%s at %s is reached on a path that has not tested the value for time.Time", what, e.Pos), e.Pos
 				}
 			}
 		}
-		r.add(rule, "(*Encoder).writeObject · time.Time test precedes class definition", w.instrPos(ta), ok, fact)
 	}
+	switch {
+	case tests == 0:
+		r.add(rule, "(*Encoder).writeObject · time.Time test", w.pos(wo.Pos()), false, "no type test for time.Time in the struct writer: a timestamp field is written as an object")
+	case bad != "":
+		r.add(rule, "(*Encoder).writeObject · time.Time test precedes class definition", badPos, false, bad)
+	default:
+		r.add(rule, "(*Encoder).writeObject · time.Time test precedes class definition", testPos, true,
+			fmt.Sprintf("on each of the %d paths that emit a definition or an instance header the time.Time test comes first", emitting))
+	}
+	r.floor(rule+" (object-emitting paths of the struct writer)", emitting, 2)
 	rs := w.fn("(*Decoder).readStruct")
 	if rs == nil {
 		r.undecided(rule, "(*Decoder).readStruct", "-", "anchor not found")
